@@ -44,6 +44,30 @@ def extra_checks(rep, pid, ledger, known):
     except Unsupported as e:
         rep.unsupported.append(f"{name}: unsupported({e})")
         return
+    # frame / order obligation on the snapshot chain: HDD.open binds `chain` once, to Descriptor.get_snapshot_chain(guid) (child -> root
+    # order, contract in contracts/c11.py), walks it root-first through a reversed *copy or view* (chain[::-1] / reversed(chain)) and never
+    # modifies the list it got from the callee (no in-place reverse / sort / pop / item store / del): the callee may hand out the same
+    # list again, so a modified list would turn the layer order of a later open() upside down.
+    name_c = "hdd:HDD.open/chain_walked_root_first_and_not_modified"
+    why_c = []
+    binds = [n for n in ast.walk(node) if isinstance(n, (ast.Assign, ast.AugAssign, ast.AnnAssign)) and any(isinstance(t, ast.Name) and t.id == "chain" for t in (n.targets if isinstance(n, ast.Assign) else [n.target]))]
+    if len(binds) != 1 or not isinstance(binds[0], ast.Assign) or "get_snapshot_chain(" not in ast.unparse(binds[0].value) or not isinstance(binds[0].value, ast.Call):
+        why_c.append("`chain` is not bound exactly once to the result of get_snapshot_chain(...)")
+    if ast.unparse(inner.iter) not in ("chain[::-1]", "reversed(chain)"):
+        why_c.append(f"the per-image loop iterates `{ast.unparse(inner.iter)}`, specified: the chain root first (chain[::-1] or reversed(chain))")
+    for n in ast.walk(node):
+        if isinstance(n, ast.Call) and isinstance(n.func, ast.Attribute) and isinstance(n.func.value, ast.Name) and n.func.value.id == "chain" and n.func.attr in (
+                "reverse", "sort", "pop", "append", "extend", "insert", "remove", "clear", "__setitem__", "__delitem__"):
+            why_c.append(f"the list returned by get_snapshot_chain is modified in place (chain.{n.func.attr}())")
+        if isinstance(n, (ast.Assign, ast.AugAssign, ast.Delete)):
+            for t in (n.targets if isinstance(n, (ast.Assign, ast.Delete)) else [n.target]):
+                if isinstance(t, ast.Subscript) and isinstance(t.value, ast.Name) and t.value.id == "chain":
+                    why_c.append("the list returned by get_snapshot_chain is modified in place (item store / delete)")
+    rep.obligations[name_c] = {"verdict": "discharged" if not why_c else "undischarged", "atoms": 1, "ms": 0, "backends": {"set-inclusion"}, "stages": set(), "line": node.lineno, "props": ["C06", "C07", "C08", "C10"]}
+    if why_c:
+        text = "; ".join(sorted(set(why_c)))
+        p = driver.write_replay(pid, name_c, {"property": pid, "obligation": name_c, "verifier_output": text})
+        rep.violations.append((p, f"{name_c}: {text}", True))
     rep.functions.append({"function": f"{FILE}:HDD.open (storage / image loop nest)", "contract": "per-storage chain starts with parent None; each HDS layer gets the layer below; (storage, stream) appended", "props": ["C06", "C07", "C10"]})
     ok = not why
     rep.obligations[name] = {"verdict": "discharged" if ok else "undischarged", "atoms": 1, "ms": 0, "backends": {"set-inclusion"}, "stages": set(), "line": node.lineno, "props": ["C06", "C07", "C10"]}
